@@ -1090,10 +1090,6 @@ func ReconcileStaging(repo gitstore.Storer, signCommit bool) error {
 	if err := repo.SetReference(PolicyStagingRef, policyTip); err != nil {
 		return err
 	}
-	if err := rsl.NewReferenceEntry(PolicyStagingRef, policyTip).Commit(repo, signCommit); err != nil {
-		// staging must not be left out of step with its latest RSL entry
-		return repo.ResetDueToError(err, PolicyStagingRef, policyStagingTip)
-	}
 
 	// TODO: fix RSL entries for staging that are now orphaned
 
@@ -1105,7 +1101,14 @@ func ReconcileStaging(repo gitstore.Storer, signCommit bool) error {
 		repository:         repo,
 	}
 
-	return newStagingState.Commit(repo, "Rebase policy staging\n", true, signCommit)
+	// The rebased staging state is committed on top of the policy tip and
+	// recorded in the RSL in one step. If that fails, staging goes back to
+	// where it was, with its changes, so that reconciliation can be repeated
+	if err := newStagingState.Commit(repo, "Rebase policy staging\n", true, signCommit); err != nil {
+		return repo.ResetDueToError(err, PolicyStagingRef, policyStagingTip)
+	}
+
+	return nil
 }
 
 func (s *State) GetRootKeys() ([]tuf.Principal, error) {
